@@ -8,6 +8,7 @@
    Part 3  stream_typed_item_ok, stream_typed_scalar_needs_delim
    Part 4  the recursion budget is an invariant of next(): stream_typed_depth_any, stream_typed_depth, stream_run_typed_depth
    Part 5  totality: stream_typed_total is FALSE as an unconditional statement (counterexample: budget 0);
+           stream_typed_bad_only_panic (unconditional: only a Panic of the item parser),
            stream_typed_total_partial (budget a u8 in 1..255, or limit disabled), stream_typed_total_run (whole histories),
            stream_typed_total_init (from stream_init: unconditional)
    Part 6  histories: item_accepts, stream_typed_history (+ _from), with instances and a concrete corollary
@@ -115,7 +116,7 @@ Proof.
       * cbn [res_titem] in H. discriminate H.
     + destruct (de_typed _ E t _) as [[v s2]|c i|k s'| |].
       * destruct ((b =? 91) || (b =? 34) || (b =? 123))%bool; [discriminate H|].
-        destruct (peek_end_of_value E s2) as [s3|c i| |]; discriminate H.
+        destruct (peek_end_of_value E s2) as [s3|c i| |]; try discriminate H. destruct c; discriminate H.
       * discriminate H.
       * discriminate H.
       * discriminate H.
@@ -285,7 +286,8 @@ Proof.
   pose proof (de_typed_depth_restored _ E t s1 v s2 Hit) as Hd2.
   destruct ((b =? 91) || (b =? 34) || (b =? 123))%bool.
   - injection H as _ <-. cbn [ss_st]. lia.
-  - destruct (peek_end_of_value E s2) as [s3|c i| |] eqn:Hpev; injection H as _ <-; cbn [ss_st]; try lia.
+  - destruct (peek_end_of_value E s2) as [s3|c i| |] eqn:Hpev; [| destruct c | |];
+      injection H as _ <-; rewrite ?set_failed_depth; cbn [ss_st]; try lia.
     rewrite (pev_depth E s2 s3 Hpev). lia.
 Qed.
 
@@ -319,6 +321,31 @@ Example stream_typed_total_counterexample :
   stream_next_typed E_slT (TSeq TBool) (mkSS (mkSt [91; 93] 0 false 0) 0 false)
   = (Some TIBad, mkSS (mkSt [] 0 true 0) 0 false).
 Proof. vm_compute. reflexivity. Qed.
+
+(* Unconditional version (typed counterpart of C12_total, sharpened by de_typed_no_fuel): next() itself never produces
+   TIBad; it can only come from a Panic of the item parser (fuel never runs out), on the state left by parse_whitespace. *)
+Theorem stream_typed_bad_only_panic : forall E t ss ss',
+  stream_next_typed E t ss = (Some TIBad, ss') ->
+  exists s1, de_typed (typed_fuel t (rest s1)) E t s1 = TPanic /\ depth s1 = depth (ss_st ss).
+Proof.
+  intros E t ss ss' H. unfold stream_next_typed in H.
+  destruct (is_io E && ss_failed ss); [discriminate H|].
+  destruct (parse_whitespace E (ss_st ss)) as [[o s1]|c i| |] eqn:Hpw.
+  - destruct o as [b|]; [|discriminate H]. cbv zeta in H.
+    destruct (de_typed (typed_fuel t (rest s1)) E t s1) as [[v s2]|c i|k s'| |] eqn:Hit.
+    + destruct ((b =? 91) || (b =? 34) || (b =? 123))%bool; [discriminate H|].
+      unfold peek_end_of_value, peek in H. destruct (rest s2) as [|b2 r2].
+      * unfold at_end in H. destruct (tm E) as [|kind]; cbn [bind res_titem] in H; discriminate H.
+      * cbn [bind] in H. destruct (is_delim b2); [discriminate H|].
+        unfold peek_error in H. cbn [res_titem] in H. discriminate H.
+    + cbn [tres_item] in H. discriminate H.
+    + cbn [tres_item] in H. discriminate H.
+    + exfalso. exact (de_typed_no_fuel E t s1 Hit).
+    + exists s1. split; [exact Hit|]. exact (pw_depth E (ss_st ss) (Some b) s1 Hpw).
+  - cbn [res_titem] in H. discriminate H.
+  - exfalso. pose proof (parse_whitespace_tot E (ss_st ss)) as Hw. rewrite Hpw in Hw. discriminate Hw.
+  - exfalso. pose proof (parse_whitespace_tot E (ss_st ss)) as Hw. rewrite Hpw in Hw. discriminate Hw.
+Qed.
 
 (* the strongest true variant for one call: the budget is a u8 in 1..255 (or the limit is disabled).
    (= TypedTotal.stream_next_typed_no_bad, which rests on dt_main: de_typed with typed_fuel is never TFuel / TPanic) *)
@@ -546,20 +573,24 @@ Qed.
 
 Definition txt_true : list N := [116; 114; 117; 101].
 Definition txt_false : list N := [102; 97; 108; 115; 101].
+Definition txt_vec_true : list N := [91; 116; 114; 117; 101; 93].
 
 (*  ` true \n false true`  as bool, any reader kind / cfg: values at byte offsets 5, 12, 17, then None forever at 17 *)
 Corollary history_bools : forall E k, tm E = TEof ->
   stream_run_typed (3 + k) E TBool
-    (stream_init ([32] ++ txt_true ++ [32; 10] ++ txt_false ++ [32] ++ txt_true))
+    (stream_init [32; 116; 114; 117; 101; 32; 10; 102; 97; 108; 115; 101; 32; 116; 114; 117; 101])
   = [(Some (TIVal (DBool true)), 5%nat); (Some (TIVal (DBool false)), 12%nat); (Some (TIVal (DBool true)), 17%nat)]
     ++ repeat (None, 17%nat) k.
 Proof.
   intros E k Htm.
-  exact (stream_typed_history E TBool
-           [(txt_true, DBool true, [32; 10]); (txt_false, DBool false, [32]); (txt_true, DBool true, [])] [32] k Htm eq_refl
-           (conj (accepts_true E DEPTH0) (conj eq_refl (conj (or_introl ltac:(discriminate))
-           (conj (accepts_false E DEPTH0) (conj eq_refl (conj (or_introl ltac:(discriminate))
-           (conj (accepts_true E DEPTH0) (conj eq_refl (conj (or_intror eq_refl) I)))))))))).
+  assert (Hok : titems_ok E TBool
+                  [(txt_true, DBool true, [32; 10]); (txt_false, DBool false, [32]); (txt_true, DBool true, [])]).
+  { unfold titems_ok. cbn [titems_ok_at].
+    split; [exact (accepts_true E DEPTH0)|]. split; [reflexivity|]. split; [left; discriminate|].
+    split; [exact (accepts_false E DEPTH0)|]. split; [reflexivity|]. split; [left; discriminate|].
+    split; [exact (accepts_true E DEPTH0)|]. split; [reflexivity|]. split; [right; reflexivity|]. exact I. }
+  pose proof (stream_typed_history E TBool _ [32] k Htm eq_refl Hok) as H.
+  unfold txt_true, txt_false in H. cbn [length tstream_text tstream_obs app Nat.add] in H. exact H.
 Qed.
 
 (*  `[true] [true]\n`  as Vec<bool>: offsets 6 and 13, then None forever at 14 (the final None consumes the newline) *)
@@ -569,16 +600,18 @@ Corollary history_vecs : forall E k, tm E = TEof ->
   = [(Some (TIVal (DSeq [DBool true])), 6%nat); (Some (TIVal (DSeq [DBool true])), 13%nat)] ++ repeat (None, 14%nat) k.
 Proof.
   intros E k Htm.
-  exact (stream_typed_history E (TSeq TBool)
-           [([91; 116; 114; 117; 101; 93], DSeq [DBool true], [32]); ([91; 116; 114; 117; 101; 93], DSeq [DBool true], [10])] [] k
-           Htm eq_refl
-           (conj (accepts_seq_true E) (conj eq_refl (conj (or_introl ltac:(discriminate))
-           (conj (accepts_seq_true E) (conj eq_refl (conj (or_introl ltac:(discriminate)) I))))))).
+  assert (Hok : titems_ok E (TSeq TBool)
+                  [(txt_vec_true, DSeq [DBool true], [32]); (txt_vec_true, DSeq [DBool true], [10])]).
+  { unfold titems_ok. cbn [titems_ok_at].
+    split; [exact (accepts_seq_true E)|]. split; [reflexivity|]. split; [left; discriminate|].
+    split; [exact (accepts_seq_true E)|]. split; [reflexivity|]. split; [left; discriminate|]. exact I. }
+  pose proof (stream_typed_history E (TSeq TBool) _ [] k Htm eq_refl Hok) as H.
+  unfold txt_vec_true in H. cbn [length tstream_text tstream_obs app Nat.add] in H. exact H.
 Qed.
 
 (* the separation hypothesis of [titems_ok] cannot be dropped for bare scalars: `truefalse` *)
 Example history_needs_separation :
-  stream_run_typed 2 E_slT TBool (stream_init (txt_true ++ txt_false))
+  stream_run_typed 2 E_slT TBool (stream_init [116; 114; 117; 101; 102; 97; 108; 115; 101])
   = [(Some (TIErr TrailingCharacters 5), 4%nat); (Some (TIVal (DBool false)), 9%nat)].
 Proof. vm_compute. reflexivity. Qed.
 
@@ -592,6 +625,7 @@ Print Assumptions stream_typed_scalar_needs_delim.
 Print Assumptions stream_typed_depth_any.
 Print Assumptions stream_typed_depth.
 Print Assumptions stream_run_typed_depth.
+Print Assumptions stream_typed_bad_only_panic.
 Print Assumptions stream_typed_total_partial.
 Print Assumptions stream_typed_total_run.
 Print Assumptions stream_typed_total_init.
